@@ -38,7 +38,8 @@ package nat
 //@   inv idnext: 1 <= self.nextSubscriberID && forall a uint32 :: a in self.subscriberIDs ==> 1 <= self.subscriberIDs[a] && self.subscriberIDs[a] < self.nextSubscriberID
 
 // NewManager: the invariants hold for the new manager for every ACCEPTED configuration
-// (no precondition on cfg: NewManager is the only validation point).
+// (no precondition on cfg: NewManager is the only validation point; it rejects port ranges
+// outside 1..65535 and block sizes that do not fit the range).
 //@ func NewManager
 //@   modifies nothing
 //@   ensures err == nil ==> result != nil && fresh(result) && natCfgOK(result)
@@ -71,6 +72,11 @@ package nat
 //@   ensures locked(privateIP in m.subscriberIDs) ==> result == locked(m.subscriberIDs[privateIP]) && dom(m.subscriberIDs) == locked(dom(m.subscriberIDs)) && vals(m.subscriberIDs) == locked(vals(m.subscriberIDs))
 //@   ensures !locked(privateIP in m.subscriberIDs) ==> dom(m.subscriberIDs) == locked(dom(m.subscriberIDs))[privateIP := true] && vals(m.subscriberIDs) == locked(vals(m.subscriberIDs))[privateIP := result]
 //@   ensures !locked(privateIP in m.subscriberIDs) ==> forall a uint32 :: locked(a in m.subscriberIDs) ==> locked(m.subscriberIDs[a]) != result
+
+// AddPublicIP rejects an address that is already in the pool (duplicate scan = loop #1, read only).
+//@ loop Manager.AddPublicIP#1
+//@   invariant m.pool == locked(m.pool) && m.pmax && m.pcnt && natCfgOK(m)
+//@   invariant ((m.portRangeEnd - m.portRangeStart + 1) / m.portsPerSubscriber) * m.portsPerSubscriber <= m.portRangeEnd - m.portRangeStart + 1
 
 //@ func (m *Manager) AddPublicIP
 //@   ensures err == nil ==> len(m.pool) == locked(len(m.pool)) + 1 && m.pool[len(m.pool)-1].Subscribers == 0
